@@ -161,7 +161,7 @@ def build_model(ctx, rng, lat, explicit_plus_hc=False, allow_exp=True, long_rang
                 ref = ref + T.conj().T
 
     for call_no in range(ncalls):
-        kind = str(rng.choice(['add_onsite', 'add_coupling', 'add_coupling', 'add_multi_coupling', 'add_exp', 'add_local_term']))
+        kind = str(rng.choice(['add_onsite', 'add_coupling', 'add_coupling', 'add_multi_coupling', 'add_exp', 'add_local_term', 'add_exp_centered']))
         if force_multi and call_no == 0:
             kind = 'add_multi_coupling'
         cplx = rng.random() < 0.3
@@ -300,6 +300,27 @@ def build_model(ctx, rng, lat, explicit_plus_hc=False, allow_exp=True, long_rang
             else:
                 terms_out.append(('exp', st, lam, n1, n2, subsites, plus_hc))
             hermitian = None if not plus_hc else hermitian
+        elif kind == 'add_exp_centered':
+            if not finite or not allow_exp:
+                continue
+            s0 = sites[0]
+            if any(type(s_) is not type(s0) for s_ in sites) or lat.N_sites < 3:
+                continue
+            n1, n2 = op_names(s0, rng, 'bosonic'), op_names(s0, rng, 'bosonic')  # (fermionic ones: NotImplementedError, documented TODO)
+            if n1 is None or n2 is None or not neutral([(s0, n1), (s0, n2)]):
+                continue
+            lam = float(np.round(rng.uniform(0.2, 0.9), 3))
+            centre = int(rng.integers(lat.N_sites))
+            plus_hc = bool(rng.random() < 0.5)
+            st = rand_strength(rng, None, cplx)
+            plus_hc = herm_ok(plus_hc, st, [(s0, n1), (s0, n2)])
+            m.add_exponentially_decaying_centered_terms(st, lam, n1, n2, centre, plus_hc=plus_hc)
+            calls.append(['add_exponentially_decaying_centered_terms', repr(st), lam, n1, n2, centre, plus_hc])
+            ctx.count('call.add_exponentially_decaying_centered_terms')
+            for b in range(lat.N_sites):
+                if b != centre:
+                    add_term(st * lam**abs(b - centre), [(n1, centre), (n2, b)], plus_hc)
+            hermitian = None if not plus_hc else hermitian
         elif kind == 'add_local_term':
             nops = int(rng.integers(1, 3))
             coords = []
@@ -397,16 +418,17 @@ def case_random(ctx, i):
             T4 = T4[np.ix_(*(perms + perms))]
             return T4.reshape(ref.shape)
 
+        # (with explicit_plus_hc the terms of the model are half of H: the exporters have to add the other half themselves)
+        Hn = ED.get_numpy_Hamiltonian(m, undo_sort_charge=True)
+        if not report('get_numpy_Hamiltonian(undo_sort_charge)', to_leg_basis(np.asarray(Hn))):
+            return
+        Hn2 = ED.get_numpy_Hamiltonian(m, undo_sort_charge=False)
+        if not report('get_numpy_Hamiltonian', np.asarray(Hn2)):
+            return
+        Hs = ED.get_scipy_sparse_Hamiltonian(m, undo_sort_charge=False)
+        if not report('get_scipy_sparse_Hamiltonian', np.asarray(Hs.todense())):
+            return
         if not explicit:
-            Hn = ED.get_numpy_Hamiltonian(m, undo_sort_charge=True)
-            if not report('get_numpy_Hamiltonian(undo_sort_charge)', to_leg_basis(np.asarray(Hn))):
-                return
-            Hn2 = ED.get_numpy_Hamiltonian(m, undo_sort_charge=False)
-            if not report('get_numpy_Hamiltonian', np.asarray(Hn2)):
-                return
-            Hs = ED.get_scipy_sparse_Hamiltonian(m, undo_sort_charge=False)
-            if not report('get_scipy_sparse_Hamiltonian', np.asarray(Hs.todense())):
-                return
             mm = MPOModel(lat, H)
             for from_mpo in (True, ):
                 He = ED.get_numpy_Hamiltonian(mm, from_mpo=from_mpo, undo_sort_charge=False)
@@ -537,8 +559,11 @@ def case_infinite(ctx, i):
         geo = 'Chain(short cell)'
         long_range, force_multi = int(rng.integers(4, 9)), True
         ctx.count('infinite.short_cell_long_multi')
-    m, calls, _, terms = build_model(ctx, rng, lat, allow_exp=False, long_range=long_range, force_multi=force_multi)
-    case = {'lattice': geo, 'Ls': list(map(int, lat.Ls)), 'sites': kind, 'calls': calls, 'bc_MPS': 'infinite'}
+    explicit = bool(rng.random() < 0.3)
+    m, calls, _, terms = build_model(ctx, rng, lat, explicit_plus_hc=explicit, allow_exp=False, long_range=long_range, force_multi=force_multi)
+    case = {'lattice': geo, 'Ls': list(map(int, lat.Ls)), 'sites': kind, 'calls': calls, 'bc_MPS': 'infinite', 'explicit_plus_hc': explicit}
+    if explicit:
+        ctx.count('infinite.explicit_plus_hc')
     ctx.count('infinite.models')
     sites = lat.mps_sites()
     L = lat.N_sites
@@ -612,6 +637,24 @@ def case_infinite(ctx, i):
                 ctx.count('infinite.window_with_terms')
             if any(hi_ - lo_ >= L for lo_, hi_ in [(min(j for _, j in t), max(j for _, j in t)) for _s, t, _p in terms]):
                 ctx.count('infinite.terms_beyond_unit_cell')
+            # a segment cut out of the MPO is the same window (representation-only flags such as explicit_plus_hc travel with it)
+            try:
+                Hseg = H.extract_segment(0, Wn - 1)
+                Hs = window_matrix(Hseg, Wn)
+                if Hseg.explicit_plus_hc:
+                    Hs = Hs + Hs.conj().T
+                ctx.count('infinite.segment_checked')
+                if np.linalg.norm(Hs - ref_w) > 1e-9 * max(1.0, np.linalg.norm(ref_w)):
+                    ctx.violation('MPO.extract_segment:differs-from-recorded-terms%s' % (':explicit_plus_hc' if explicit else ''),
+                                  '|segment - reference| = %g (|ref| = %g), flag on the segment: %r' %
+                                  (np.linalg.norm(Hs - ref_w), np.linalg.norm(ref_w), Hseg.explicit_plus_hc), case)
+                    return
+            except Exception as e:
+                tb = traceback.format_exc()
+                if '/tenpy/' not in tb:
+                    raise
+                ctx.violation('MPO.extract_segment:raises-%s' % type(e).__name__, tb[-500:], case)
+                return
             if np.linalg.norm(Hw - ref_w) > 1e-9 * max(1.0, np.linalg.norm(ref_w)):
                 ctx.violation('infinite:MPO-window-differs-from-recorded-terms', '|window(H_MPO) - sum of the translates of the recorded terms '
                               'inside %d sites| = %g (|ref| = %g, %d terms inside)' % (Wn, np.linalg.norm(Hw - ref_w), np.linalg.norm(ref_w), n_in), case)
